@@ -50,6 +50,7 @@ var Classes = []string{
 	"key-order:branch",
 	"key-order:parent-lo",
 	"key-order:parent-hi",
+	"key-order:ancestor-hi",
 }
 
 
@@ -323,6 +324,15 @@ func Mutants(img []byte, r *Result, emit func(m Mutant) bool) {
 				if !emit(Mutant{"key-order:parent-lo", fmt.Sprintf("first key of page %d lowered below its separator in parent %d", id, pi.Parent), out, false}) {
 					return
 				}
+			}
+		}
+		// upper side, bound inherited from a higher ancestor: the page is the last child of its parent, so its
+		// upper bound is the next separator of some grandparent (a walk that bounds only siblings misses this)
+		if ci+1 == len(par.Children) && pi.Hi != nil && len(pi.Keys[n-1]) > 0 && len(pi.Hi) > 0 && pi.Hi[0] != 0xFF {
+			kl, _ := keyAt(img, n-1)
+			out := []Edit{{kl, []byte{0xFF}}}
+			if !emit(Mutant{"key-order:ancestor-hi", fmt.Sprintf("last key of page %d (last child of %d) raised above the separator a higher ancestor assigns to it", id, pi.Parent), out, false}) {
+				return
 			}
 		}
 		// upper side: last key raised to or above the next separator of the parent
